@@ -1265,9 +1265,19 @@ def rtc_decomp(names, tier):
                 Q = _dn(evecs)
                 return (Wm * ((Q * evals.unsqueeze(-2)) @ Q.mT)).sum() + 0.3 * (evals**2).sum()
 
+            # INPUT-only label tag "closepair" (method='lanczos' only): the smallest gap between neighbouring eigenvalues of the
+            # dense oracle is < 0.03 (spectra lie in [1, cond]).  It is the trigger condition of the known finding C07-A4
+            # (Diagonalization.backward adds +1e-10 to BOTH sigma_i - sigma_j and sigma_j - sigma_i: the gradient is off by
+            # ~1e-10 / gap^2, above this check's 1e-6 for a gap below ~0.01..0.02).  The tag changes neither the check nor its
+            # tolerance; it only lets the finding's regex name the condition instead of one seeded instance.
+            gtag = ""
+            if method == "lanczos" and n >= 2:
+                ev0 = torch.linalg.eigvalsh(D0.detach())
+                if float((ev0[..., 1:] - ev0[..., :-1]).min()) < 0.03:
+                    gtag = "|closepair"
             cache = {}
             for subset in subsets:
-                il = f"{label}|method={method}|rg={'+'.join(subset)}"
+                il = f"{label}{gtag}|method={method}|rg={'+'.join(subset)}"
                 _run_pair(rec, f"diagonalization/{name}", il, spec, subset, OrderedDict(), fl_diag,
                           lambda D, E: (Wm * D).sum() + 0.3 * (D * D.mT).sum(), tol, cfgs, cache)
         # ---- pivoted cholesky
